@@ -71,6 +71,13 @@ func VerifC07_ReadsDoNotWait() {
 	}
 	// a refresh or miss-fetch is in progress: the one-slot write lock is taken
 	w.pc.writeLock <- struct{}{}
+	if verif_Bool("refreshIntervalElapsed") {
+		// the read that notices the elapsed interval starts the automatic refresh
+		// but does not wait for it either
+		w.pc.refreshIn = 1
+		w.pc.refreshTimer = c07timer()
+		w.pc.needsRefresh.Store(true)
+	}
 	before := w.fetches()
 	got, err := w.pc.Get(context.Background(), "P")
 	verif_Reach("lookup returned")
@@ -79,6 +86,8 @@ func VerifC07_ReadsDoNotWait() {
 	verif_Assert(rerr == nil && len(res) >= 1, "result expansion completes while a writer is active")
 	verif_Assert(len(w.pc.List()) == 1 && w.pc.Len() >= 1, "listing completes while a writer is active")
 	verif_Assert(w.fetches() == before, "reads of cached providers do not query the sources")
+	<-w.pc.writeLock // the writer finishes; a started automatic refresh may now run
+	verif_Quiesce()
 }
 
 // C07 (b): a snapshot that was published to readers is never mutated by later
